@@ -393,8 +393,9 @@ package proxy
 // State guarded by ackMu. rely: the source's exclusive high watermark never decreases (A-temporal); the last sent
 // acknowledgement object is replaced only by sendAck itself. A-inc (one incarnation, the "no stream failures" part
 // of C01-C03): acknowledgements are processed only after a batch of this incarnation was received.
-//@ guards proxyStreamReceiver.ackMu: lastExclusiveHighOriginal, lastAckSendTime, lastSentAck
+//@ guards proxyStreamReceiver.ackMu: lastExclusiveHighOriginal, lastAckSendTime, lastSentAck, *ackByTarget
 //@   rely self.lastExclusiveHighOriginal >= old(self.lastExclusiveHighOriginal) && self.lastExclusiveHighOriginal > 0 && self.lastSentAck == old(self.lastSentAck)
+//@   rely forall t history.ClusterShardID :: { t in self.ackByTarget } old(t in self.ackByTarget) ==> t in self.ackByTarget
 
 //@ extern quiet (*proxyStreamReceiver).buildReceiverDebugSnapshot
 
@@ -410,7 +411,6 @@ package proxy
 //@   requires r.lastSentMin <= 0 || r.lastSentMin <= r.lastExclusiveHighOriginal
 //@   callpre Send.1: @bounded: lastExclusiveHighOriginal > 0 ==> ackOf($0) <= lastExclusiveHighOriginal
 //@   callpre Send.1: @min_over_reported_targets: forall t history.ClusterShardID :: { t in r.ackByTarget } t in r.ackByTarget ==> ackOf($0) <= r.ackByTarget[t]
-//@   callpre Send.1: @all_handed_targets_reported: forall t history.ClusterShardID, id int64 :: { handed(r, t, id) } handed(r, t, id) && id < ackOf($0) ==> t in r.ackByTarget
 //@   loop 1 invariant r.ackByTarget != nil && r.lastSentMin == r.lastSent && (r.lastSentAck != nil ==> ackOf(r.lastSentAck) == r.lastSent)
 //@   loop 1 invariant r.lastSentMin <= 0 || r.lastSentMin <= r.lastExclusiveHighOriginal
 //@   loop 2 invariant first <==> $n == 0
@@ -481,12 +481,13 @@ package proxy
 // Whenever a task message is handed to the shard manager: it goes to the key of its group, carries exactly that
 // group's tasks (every one owned by that shard), an exclusive high watermark of last id + 1 and the batch priority.
 //@ contract (*proxyStreamReceiver).recvReplicationMessages
-//@   props C02
+//@   props C02 C01
 //@   arith wrap
-//@   requires !(r.sourceShardID.ClusterID == 0 && r.sourceShardID.ShardID == 0)
+//@   requires !(r.sourceShardID.ClusterID == 0 && r.sourceShardID.ShardID == 0) && r.ackByTarget != nil && !fresh(r.ackByTarget)
 //@   callpre DeliverMessagesToShardOwner.2: @to_owner: $0 == targetShardID && targetShardID in tasksByTargetShard &&
 //@        msgsOf($1.Resp).ReplicationTasks == tasksByTargetShard[targetShardID] &&
 //@        (forall j int :: { tasksByTargetShard[targetShardID][j] } 0 <= j && j < len(tasksByTargetShard[targetShardID]) ==> ownedBy(r, tasksByTargetShard[targetShardID][j], targetShardID))
+//@   callpre DeliverMessagesToShardOwner.2: @registered_before_handoff: targetShardID in r.ackByTarget
 //@   callpre DeliverMessagesToShardOwner.2: @watermark: msgsOf($1.Resp).ExclusiveHighWatermark == tasks[len(tasks) - 1].RawTaskInfo.TaskId + 1 &&
 //@        msgsOf($1.Resp).Priority == attr.Messages.Priority && $1.SourceShard == r.sourceShardID
 //@   loop 2 modifies fresh []*replicationv1.ReplicationTask
